@@ -48,7 +48,16 @@ Definition val_of_rout (o : rout) : val :=
   | RSeek r p => VL [VI 2; VI r; VI p]
   end.
 
-Definition run (v : val) : val :=
+(* case (-1 k initfail probe): k nested self-describing filters (bidder wins at depths < k), the init at
+   depth initfail (if < k) fails, probe = final read-ahead succeeds *)
+Definition run_filters (l : list val) : val :=
+  let k := Z.to_nat (zval (vnth l 1)) in
+  let bad := Z.to_nat (zval (vnth l 2)) in
+  let '(st, d) := choose_filters (fun d => if Nat.ltb d k then [0%Z; 55%Z; 20%Z] else [0%Z; 0%Z])
+                                 (fun d => negb (Nat.eqb d bad)) (boolval (vnth l 3)) in
+  VL [VI st; VI (Z.of_nat d)].
+
+Definition run_core (v : val) : val :=
   let l := lval v in
   let c := mkClient (bval (vnth l 0)) 0 (map ract_of (lval (vnth l 1))) (map sact_of (lval (vnth l 2)))
                     (map kact_of (lval (vnth l 3))) (boolval (vnth l 4)) (boolval (vnth l 5)) in
@@ -58,4 +67,10 @@ Definition run (v : val) : val :=
   | Null a => if (a <? 0)%Z then VL [VL []; Vbool (oob s0)]    (* open fails: no script runs *)
               else let '(sf, outs) := rrun s0 ops in VL [VL (map val_of_rout outs); Vbool (oob sf)]
   | Win _ => let '(sf, outs) := rrun s0 ops in VL [VL (map val_of_rout outs); Vbool (oob sf)]
+  end.
+
+Definition run (v : val) : val :=
+  match lval v with
+  | VI (Zneg _) :: _ => run_filters (lval v)
+  | _ => run_core v
   end.
